@@ -24,7 +24,16 @@ ob_r = z3.Function('ob_r', Ob, Ob)
 tyl = z3.Function('ty_l', TyS, TyS)      # left / right adjoint of a rigid type (reverses the order)
 tyr = z3.Function('ty_r', TyS, TyS)
 
-KINDS = {'Box': 0, 'Swap': 1, 'Cup': 2, 'Cap': 3, 'Sum': 4, 'Bubble': 5, 'Spider': 6, 'Layer': 7}
+# biclosed (categorial grammar) types: a slash type is a one-object type; predicates and projections on sequences
+ty_over = z3.Function('ty_is_over', TyS, z3.BoolSort())
+ty_under = z3.Function('ty_is_under', TyS, z3.BoolSort())
+ty_sl = z3.Function('ty_slash_left', TyS, TyS)
+ty_sr = z3.Function('ty_slash_right', TyS, TyS)
+mk_over = z3.Function('ty_mk_over', TyS, TyS, TyS)
+mk_under = z3.Function('ty_mk_under', TyS, TyS, TyS)
+
+KINDS = {'Box': 0, 'Swap': 1, 'Cup': 2, 'Cap': 3, 'Sum': 4, 'Bubble': 5, 'Spider': 6, 'Layer': 7,
+         'FA': 8, 'BA': 9, 'FC': 10, 'BC': 11, 'FX': 12, 'BX': 13, 'Curry': 14}
 
 EMPTY = z3.Empty(TyS)
 
